@@ -1,5 +1,6 @@
 import ModbusModel.Driver.Wire
 import ModbusModel.Model.History
+import ModbusModel.Model.Sync
 /-
   One model evaluation per case line.  `runLine` is total: a malformed line
   yields `bad-case` (never a default value).
@@ -181,6 +182,57 @@ def pSetup (s : String) : Option Setup :=
   | 'l' :: k => (pErrKind (String.ofList k)).map .acceptFailed
   | _ => none
 
+/-- run the ops of a blocking-client history through `SyncContext` -/
+def syncOps : List String → SyncContext → Transport → List String → Option (List String)
+  | [], _, _, acc => some acc.reverse
+  | op :: rest, s, t, acc =>
+    match pCliOp op with
+    | none => none
+    | some (.call req ext _, none) =>
+      let (r, s', t', effs) := s.call req (t.extend ext) none
+      syncOps rest s' t' ((callResult r ++ " " ++ effectsTok effs) :: acc)
+    | some (.call _ ext _, some top) =>
+      let (r, s', t', effs) := s.typed top (t.extend ext) none
+      syncOps rest s' t' ((typedResult r ++ " " ++ effectsTok effs) :: acc)
+    | some (.setSlave id, _) => syncOps rest (s.setSlave id) t ("ok" :: acc)
+    | some (.disconnect _, _) => none
+
+/-- the accept loop over a list of connection setups: `a` accepted, the client performs one good
+    exchange and closes; `b` accepted, the client sends a malformed frame; `r` no service;
+    `s<kind>` the setup fails.  Each spawned connection runs the modelled `process`. -/
+def acceptOp (k : Kind) (setups : String) (abort : Bool) : Option String := do
+  let toks := if setups = "-" then [] else setups.splitOn ","
+  let parsed ← toks.mapM fun t =>
+    if t = "a" then some (some false, Setup.accepted 0)
+    else if t = "b" then some (some true, Setup.accepted 0)
+    else if t = "r" then some (none, Setup.rejected)
+    else match t.toList with
+      | 's' :: kk => (pErrKind (String.ofList kk)).map fun e => (none, Setup.setupFailed e)
+      | _ => none
+  -- number the connections by position
+  let numbered := (List.range parsed.length).zip parsed |>.map fun (i, (b, s)) =>
+    (b, match s with | .accepted _ => Setup.accepted i | s => s)
+  let (spawnedIdx, err) := serve (numbered.map (·.2))
+  let reqPdu : Bytes := [0x03, 0, 1, 0, 1]
+  let good : Bytes := match k with
+    | .tcp => mbap { transactionId := 7, unitId := 1 } 5 ++ reqPdu
+    | .rtu => (1 :: reqPdu) ++ crcBytes (1 :: reqPdu)
+  let bad : Bytes := match k with
+    | .tcp => [0, 7, 0, 9, 0, 6, 1] ++ reqPdu
+    | .rtu => (1 :: [0x05, 0, 1, 0x12, 0x34]) ++ crcBytes (1 :: [0x05, 0, 1, 0x12, 0x34])
+  let runs := spawnedIdx.map fun i =>
+    let isBad := match numbered[i]? with | some (some true, _) => true | _ => false
+    let svc : Service := fun _ _ _ => .reply (.readHoldingRegisters [UInt16.ofNat i])
+    let (e, evs, _, _) := process k svc { reads := [.data (if isBad then bad else good), .eof] }
+    (i, e, evs.any fun | .write _ => true | _ => false)
+  let served := runs.filterMap fun (i, _, w) => if w then some i else none
+  let cb := (runs.filter fun (_, e, _) => match e with | .failed _ => true | _ => false).length
+  let endTok := match err with
+    | some e => "err:" ++ errKind e
+    | none => if abort then "aborted" else "running"
+  let tok (l : List Nat) : String := orDash (String.intercalate "," (l.map toString))
+  pure s!"spawned {tok spawnedIdx} served {tok served} cb={cb} {endTok}"
+
 def runOp (line : String) : Option String :=
   match (line.splitOn " ").filter (· ≠ "") with
   | ["fc", b] => do
@@ -234,10 +286,8 @@ def runOp (line : String) : Option String :=
   | ["rsplen", bs] => do pure (res optNat (responsePduLen (← pBytes bs)))
   | ["stream", codec, evs] => do streamOp codec (← pList pReadEv evs)
   | ["stream", codec] => streamOp codec []
-  | ["accept", setups] => do
-    let (cs, e) := serve (← pList pSetup setups)
-    let es := match e with | none => "running" | some k => "err:" ++ errKind k
-    pure s!"spawned {orDash (String.intercalate "," (cs.map toString))} {es}"
+  | ["accept", kind, setups] => do acceptOp (← pKind kind) setups false
+  | ["accept", kind, setups, "abort"] => do acceptOp (← pKind kind) setups true
   | _ =>
     -- multi-part ops: parts separated by " | "
     match line.splitOn " | " with
@@ -247,6 +297,25 @@ def runOp (line : String) : Option String :=
         let k ← pKind kind
         let c ← if slave = "-" then some (Client.attach k) else (pU8 slave).map (Client.attachSlave k)
         let outs ← cliOps ops c {} []
+        pure (String.intercalate " | " outs)
+      | "sync" :: kind :: slave :: opts => do
+        -- the blocking client, through the model of client/sync (SyncContext)
+        let k ← pKind kind
+        let sl ← if slave = "-" then some none else (pU8 slave).map some
+        let ctx := SyncContext.connect k sl (field "to" opts ≠ "")
+        let outs ← syncOps ops ctx {} []
+        pure (String.intercalate " | " outs)
+      | ["conc", kind] => do
+        let k ← pKind kind
+        let outs ← ops.mapM fun part => do
+          let fields := (part.splitOn " ").filter (· ≠ "")
+          let outcomes ← pList pSvc (field "svc" fields)
+          let t ← extendTransport {} fields
+          let svc : Service := fun i _ _ => outcomes.getD i .decline
+          let (_, evs, _, _) := process k svc t
+          let calls := evs.filterMap fun | .call s r => some s!"{hex8 s}:{request r}" | _ => none
+          let outb := evs.flatMap fun | .write bs => bs | _ => []
+          pure s!"calls={orDash (String.intercalate "," calls)} out={hexBytes outb} peer=ok"
         pure (String.intercalate " | " outs)
       | "srv" :: kind :: fields => do
         let k ← pKind kind
